@@ -35,6 +35,7 @@ static inline void caller(int me){
 void t0(void){ caller(0); }
 void t1(void){ caller(1); }
 void t2(void){ caller(2); }
+void t3(void){ caller(3); }
 void verif_final(void){
   if (verif_all_done()) verif_check(init_count == 1 && O.state == myth_once_state_completed, "C14 exactly one execution");
   verif_witness(verif_all_done());
